@@ -108,6 +108,9 @@ pub struct Finding {
 	pub replay: Option<String>,
 	#[serde(default)]
 	pub commit: Option<String>,
+	/// C16: exact verdict signature masked by this finding
+	#[serde(default)]
+	pub signature: Option<String>,
 }
 
 #[derive(Clone, Debug, Default, serde::Deserialize)]
@@ -342,6 +345,9 @@ impl Ctx {
 	pub fn in_replay(&self) -> bool {
 		self.replay.is_some()
 	}
+	pub fn violations_push_saved(&mut self, sub: &str, reason: String, replay: PathBuf) {
+		self.violations.push(Violation { sub: sub.to_string(), reason, replay });
+	}
 	pub fn push_violation(&mut self, sub: &str, reason: String) {
 		self.violations.push(Violation { sub: sub.to_string(), reason, replay: PathBuf::new() });
 	}
@@ -521,7 +527,7 @@ impl Ctx {
 				st.samples.push(s);
 			}
 		}
-		if let Some((reason, value)) = rec.fails.into_iter().next() {
+		for (reason, value) in rec.fails {
 			self.report_violation(name, &reason, &value);
 		}
 	}
@@ -711,7 +717,7 @@ impl EnumRec {
 		}
 	}
 	pub fn fail(&mut self, reason: String, case: Value) {
-		if self.fails.len() < 5 {
+		if self.fails.len() < 25 {
 			self.fails.push((reason, case));
 		}
 	}
